@@ -7,6 +7,7 @@
 (* are prefixes of one canonical byte string identified by `cid', so an     *)
 (* in-order concatenation of blocks 0..n is recognisable by (cid, length);  *)
 (* renderings are canonical strings identified by the invocation number.    *)
+(* (cid = -2: the payload is too short to tell canonical strings apart.)    *)
 (* Event fields used: k, t, r, tok, code, cls, plen, ck (cache-key id),     *)
 (* b1n/b1m/b1s, b2n/b2m/b2s (block options, -1 = absent), cid/off/cok       *)
 (* (content: which canonical string, at which offset, consistent), inv.     *)
@@ -74,7 +75,8 @@ ObsRxBlock2(o, e, key, rk) ==
                     \* "no such rendering" (4.08) is as good a reading of the statement
                     [o EXCEPT !.rend[key].umax = e.t, !.exp = Put(@, rk, X(IF rd.chunked THEN "e400b" ELSE "e400or408b"))]
              ELSE [o EXCEPT !.rend[key].use = e.t, !.rend[key].umax = e.t,
-                            !.exp = Put(@, rk, [X("slice") EXCEPT !.cid = rd.cid, !.off = off,
+                            \* a rendering that needed no block-wise transfer need not have been kept
+                            !.exp = Put(@, rk, [X(IF rd.chunked THEN "slice" ELSE "slice408") EXCEPT !.cid = rd.cid, !.off = off,
                                                                   !.len = Min(size, rd.len - off),
                                                                   !.m = IF off + size < rd.len THEN 1 ELSE 0])]
 
@@ -97,7 +99,7 @@ ObsCall(o, e) ==
                  FlagIf(o1, ~(e.plen = x.len /\ e.cok /\ x.calls = 0), "C06_HandlerSeesCompleteBody")
           ELSE IF x.kind \in {"first", "firstplain", "any"} THEN o1
           ELSE \* an intermediate block, a rejected continuation or a later Block2 request reached the handler
-               Flag(o1, IF x.kind = "slice" THEN "C06_Block2FromSingleRendering" ELSE "C06_HandlerSeesCompleteBody")
+               Flag(o1, IF x.kind \in {"slice", "slice408"} THEN "C06_Block2FromSingleRendering" ELSE "C06_HandlerSeesCompleteBody")
 
 \* the handler produced a rendering of e.plen bytes, canonical string e.inv
 ObsRelease(o, e) ==
@@ -130,7 +132,11 @@ ObsTx(o, e) ==
             [] x.kind = "final" -> FlagIf(o1, x.calls = 0, "C06_CompleteBodyReachesHandler")
             [] x.kind = "slice" ->
                  FlagIf(o1, ~(e.code = 69 /\ e.b2n = x.n /\ e.b2s = x.s /\ e.b2m = x.m /\ e.plen = x.len
-                              /\ e.cok /\ e.cid = x.cid /\ e.off = x.off), "C06_Block2IsSlice")
+                              /\ e.cok /\ (e.cid = x.cid \/ e.cid = -2) /\ e.off = x.off), "C06_Block2IsSlice")
+            [] x.kind = "slice408" ->
+                 FlagIf(o1, ~(e.code = 136 \/
+                              (e.code = 69 /\ e.b2n = x.n /\ e.b2s = x.s /\ e.b2m = x.m /\ e.plen = x.len
+                               /\ e.cok /\ (e.cid = x.cid \/ e.cid = -2) /\ e.off = x.off)), "C06_Block2IsSlice")
             [] x.kind \in {"first", "firstplain"} ->
                  IF x.body < 0 THEN o1     \* answered without a rendering (an error): not this clause's business
                  ELSE LET chunked == e.b2n >= 0
@@ -138,7 +144,7 @@ ObsTx(o, e) ==
                           o2 == IF Has(o1.rend, x.key) /\ o1.rend[x.key].cid = x.cid
                                   THEN [o1 EXCEPT !.rend[x.key].chunked = (e.b2m = 1)] ELSE o1
                       IN FlagIf(o2,
-                            ~( /\ e.cok /\ (e.plen > 0 => (e.cid = x.cid /\ e.off = 0))
+                            ~( /\ e.cok /\ (e.plen > 0 => ((e.cid = x.cid \/ e.cid = -2) /\ e.off = 0))
                                /\ IF chunked
                                     THEN /\ e.b2n = 0
                                          /\ (x.kind = "first" => e.b2s <= x.s)
